@@ -1043,6 +1043,15 @@ class FnCtx:
                 else:
                     out.append(({la: -1}, 1))
             return out
+        if d[0] == "discr" and not other and len(vals) == 1 and d[1][0] == "call" and isinstance(d[1][1], str):
+            # `opt.ok_or(..)?` / `opt.ok_or_else(..)?` continues exactly when opt is Some
+            x_ = d[1]
+            via_try = False
+            if x_[1].endswith("::branch") and len(x_[2]) == 1 and x_[2][0][0] == "call" and isinstance(x_[2][0][1], str):
+                x_, via_try = x_[2][0], True
+            if x_[1].split("::")[-1] in ("ok_or", "ok_or_else") and "Option" in x_[1] and len(x_[2]) == 2:
+                is_ok = (vals[0] == 0)           # Continue / Ok are variant 0, Break / Err variant 1
+                return self.cond_facts(("discr", x_[2][0]), [1 if is_ok else 0], False, [], sb)
         if d[0] == "discr" and d[1][0] == "call" and isinstance(d[1][1], str) and d[1][1].endswith("::get") and len(d[1][2]) == 2 \
                 and ("slice" in d[1][1] or "Vec" in d[1][1]) and ((vals == [1] and not other) or (other and 0 in excl and not vals)):
             # v.get(i) is Some exactly when i < v.len()
@@ -1796,7 +1805,20 @@ class FnCtx:
         if a[0] == "f" or b[0] == "f" or ty in ("f64", "f32"):
             fa = a if a[0] == "f" else FTOP
             fb = b if b[0] == "f" else FTOP
-            return f_arith(op.replace("WithOverflow", ""), fa, fb)
+            r = f_arith(op.replace("WithOverflow", ""), fa, fb)
+            if op == "Sub" and t[3][0] == "call" and isinstance(t[3][1], str) and len(t[3][2]) == 1 and strip_site(t[3][2][0]) == strip_site(t[2]):
+                # x - round(x) and friends: the distance to the neighbouring integer is exact in floating point and
+                # bounded whatever x is (NaN only for a non-finite x)
+                from .models import FLOAT_PREFIXES
+                short = t[3][1].split("::")[-1]
+                if any(t[3][1].startswith(p_) for p_ in FLOAT_PREFIXES) and short in ("round", "floor", "ceil", "trunc", "round_ties_even"):
+                    lo_, hi_ = {"round": (-0.5, 0.5), "round_ties_even": (-0.5, 0.5), "floor": (0.0, 1.0), "ceil": (-1.0, 0.0), "trunc": (-1.0, 1.0)}[short]
+                    if short == "trunc" and fa[1] >= 0.0:
+                        lo_ = 0.0
+                    if short == "trunc" and fa[2] <= 0.0:
+                        hi_ = 0.0
+                    r = ("f", max(lo_, r[1]) if r[0] == "f" else lo_, min(hi_, r[2]) if r[0] == "f" else hi_, fa[3] or math.isinf(fa[1]) or math.isinf(fa[2]))
+            return r
         if a[0] != "i" or b[0] != "i":
             return self.top_for(t) if self.ft.tyof(t) else top_of_type(ty, self.facts)
         base = op.replace("WithOverflow", "").replace("Unchecked", "")
